@@ -126,9 +126,12 @@ fn check_one(re: &Regex, names: &[Option<String>], texts: &[String], pat: &str, 
                 bad(acc, "Captures::iter().size_hint()", t, format!("bounds that contain {}", n), format!("({}, {:?})", lo, hi));
             }
         }
-        for k in c.len()..c.len() + 3 {
-            if c.get(k).is_some() {
-                bad(acc, &format!("Captures::get({})", k), t, "None".into(), format!("{:?}", c.get(k)));
+        // indices >= len give None - also the ones whose slot arithmetic would wrap
+        for k in [c.len(), c.len() + 1, c.len() + 2, usize::MAX / 2, usize::MAX / 2 + 1, usize::MAX / 2 + 2, usize::MAX - 1, usize::MAX] {
+            match std::panic::catch_unwind(std::panic::AssertUnwindSafe(|| c.get(k).map(|m| span_of(&m)))) {
+                Ok(None) => {}
+                Ok(Some(sp)) => bad(acc, &format!("Captures::get({})", k), t, "None".into(), format!("Some({:?})", sp)),
+                Err(p) => bad(acc, &format!("Captures::get({})", k), t, "None".into(), format!("PANIC({})", panic_msg(&*p))),
             }
         }
         for (i, n) in names.iter().enumerate() {
@@ -239,7 +242,7 @@ pub fn run(ctx: &Ctx) -> Outcome {
     });
     let mut out = Outcome::new(acc);
     out.distinct_nontrivial = out.acc.distinct;
-    out.rule = format!("{}; every pattern with >= 1 group in three spellings (unnamed; all groups named with (?<gN>..) or (?P<gN>..) and named references; for reference-free patterns three partial naming layouts: every second group, only the last group, every third group) and for each the VM twin with an empty look-ahead appended; x {} texts. The generator knows the truth (group count, name of every index). Checked: captures_len, capture_names (length, each name at its index, index 0 unnamed), and on every successful search Captures::len = captures_len, iter() yields len() items equal to get(i) - driven by next() (and past the end), count, last, nth, skip(j).last(), skip(j).count(), size_hint -, name(n) = get(index of n), get(0) is Some, get(len..len+3) is None, an unknown name gives None. Non-trivial: distinct patterns with >= 2 groups of which >= 1 named that matched on both routes.", sp.describe, texts.len());
+    out.rule = format!("{}; every pattern with >= 1 group in three spellings (unnamed; all groups named with (?<gN>..) or (?P<gN>..) and named references; for reference-free patterns three partial naming layouts: every second group, only the last group, every third group) and for each the VM twin with an empty look-ahead appended; x {} texts. The generator knows the truth (group count, name of every index). Checked: captures_len, capture_names (length, each name at its index, index 0 unnamed), and on every successful search Captures::len = captures_len, iter() yields len() items equal to get(i) - driven by next() (and past the end), count, last, nth, skip(j).last(), skip(j).count(), size_hint -, name(n) = get(index of n), get(0) is Some, get(i) is None for i in len..len+3 and for i around usize::MAX/2 and usize::MAX, an unknown name gives None. Non-trivial: distinct patterns with >= 2 groups of which >= 1 named that matched on both routes.", sp.describe, texts.len());
     let (w, v) = (out.acc.get("patterns-matched:wrapped"), out.acc.get("patterns-matched:vm"));
     out.extra = json!({"patterns_matched": {"wrapped": w, "vm": v}});
     out.require(w > 0 && v > 0, "both routes must be exercised");
